@@ -4,7 +4,7 @@
 export GOFLAGS=-mod=mod GOPROXY=off GOSUMDB=off GOTOOLCHAIN=local
 REPO=${1:-/repo}
 OUT=$(mktemp /var/tmp/baseline.XXXXXX.json)
-(cd "$REPO" && go test -json -vet=off -count=1 -timeout 25m ./... > "$OUT" 2>/dev/null)
+(cd "$REPO" && go test -json -vet=off -count=1 -timeout ${SUITE_TIMEOUT:-25m} ./... > "$OUT" 2>/dev/null)
 python3 - "$OUT" <<'PY'
 import json,sys
 passed=set()
